@@ -326,6 +326,11 @@ def gen_C03(rng, count, tier):
 # ------------------------------------------------------------------------------------ C04
 
 def gen_C04(rng, count, tier):
+    # through the Server's glue, with a handler and a middleware that record being asked: a malformed head that is
+    # already buffered when the server takes the connection (and one that arrives afterwards)
+    for bad in (b"", b"/a b", b"/%zz", b"http://[::1", b"/\x00x"):
+        for pre in (["prebuf"], []):
+            yield ("route", " ".join(["node:0:-1:0:1", "mw:0:0:1", "req:" + hx(bad)] + pre))
     for i in range(count):
         head = bad_head(rng).replace(b"\r\n\r\n", b"\r\n")
         trailing = pick(rng, [b"", b"", b"garbage", b"GET / HTTP/1.1\r\n\r\n", b"\r\n\r\n"])
@@ -628,7 +633,12 @@ def gen_route(rng, count, accept_p):
             toks.append("late")          # handler installed after the connection was accepted
         elif r < 0.16:
             toks.append("unsetlate")     # handler removed after the connection was accepted
-        if rng.random() < 0.3:
+        if r >= 0.16 and rng.random() < 0.12:
+            # the request (well-formed or not) is already in the transport's buffer when the server takes the connection
+            if rng.random() < 0.5:
+                toks = [x for x in toks if not x.startswith("req:")] + ["req:" + hx(pick(rng, [b"", b"/a b", b"/%zz", b"http://[::1", b"/\x00"]))]
+            toks.append("prebuf")
+        elif rng.random() < 0.3:
             toks.append("soft")          # refusing middleware write their own response and do not close
         yield ("route", " ".join(toks))
 
